@@ -339,54 +339,87 @@ theorem go_eq_ll (p : Nat) (hp : p = 4 ∨ p = 8) (t : GoType) (h : padFree (gcT
 
 /-! (c) = (b) -/
 
-theorem abi_basic (b : Basic) :
-    abiBasicSize (gcTarget 8) b = (llBasic (gcTarget 8) b).1 ∧ abiBasicAlign (gcTarget 8) b = (llBasic (gcTarget 8) b).2 := by
-  cases b <;> decide
+theorem abi_basic_size (p : Nat) (hp : p = 4 ∨ p = 8) (b : Basic) :
+    abiBasicSize (gcTarget p) b = (llBasic (gcTarget p) b).1 := by
+  rcases hp with rfl | rfl <;> cases b <;> decide
+
+theorem abiOKG_spec {tg : Target} {ba : Basic → Nat} (h : abiOKG tg ba = true) (b : Basic) : ba b = (llBasic tg b).2 := by
+  have := List.all_eq_true.1 h b (by cases b <;> simp [Basic.all])
+  simpa using this
+
+theorem gc_ptr_facts (p : Nat) (hp : p = 4 ∨ p = 8) :
+    (gcTarget p).ptrSize = (llPtrSA (gcTarget p)).1 ∧ (gcTarget p).ptrSize = (llPtrSA (gcTarget p)).2 ∧
+    3 * (gcTarget p).ptrSize = (llStruct [llPtrSA (gcTarget p), llIntSA (gcTarget p), llIntSA (gcTarget p)]).1 ∧
+    (gcTarget p).ptrSize = (llStruct [llPtrSA (gcTarget p), llIntSA (gcTarget p), llIntSA (gcTarget p)]).2 ∧
+    2 * (gcTarget p).ptrSize = (llStruct [llPtrSA (gcTarget p), llPtrSA (gcTarget p)]).1 ∧
+    (gcTarget p).ptrSize = (llStruct [llPtrSA (gcTarget p), llPtrSA (gcTarget p)]).2 ∧
+    goSizeof (gcTarget p) .closure = (llStruct [llPtrSA (gcTarget p), llPtrSA (gcTarget p)]).1 ∧
+    (if (gcTarget p).ptrSize > 1 then (gcTarget p).ptrSize else 1) = (llStruct [llPtrSA (gcTarget p), llPtrSA (gcTarget p)]).2 := by
+  rcases hp with rfl | rfl <;> decide
 
 mutual
-theorem abi_inv : ∀ r, padFree (gcTarget 8) (toRaw r) = true →
-    abiSize (gcTarget 8) (toRaw r) = (llSA (gcTarget 8) (toRaw r)).1 ∧
-    abiAlign (gcTarget 8) (toRaw r) = (llSA (gcTarget 8) (toRaw r)).2
-  | .basic b, _ => by simpa [toRaw, abiSize, abiAlign, llSA] using abi_basic b
-  | .pointer _, _ => by simp [toRaw, abiSize, abiAlign, llSA]; decide
-  | .slice _, _ => by simp [toRaw, abiSize, abiAlign, llSA]; decide
-  | .map _ _, _ => by simp [toRaw, abiSize, abiAlign, llSA]; decide
-  | .chan _, _ => by simp [toRaw, abiSize, abiAlign, llSA]; decide
-  | .func, _ => by decide
-  | .closure, _ => by decide
-  | .iface b, _ => by cases b <;> decide
+theorem abi_inv (p : Nat) (hp : p = 4 ∨ p = 8) (ba : Basic → Nat) (hba : abiOKG (gcTarget p) ba = true) :
+    ∀ r, padFree (gcTarget p) (toRaw r) = true →
+    abiSize (gcTarget p) (toRaw r) = (llSA (gcTarget p) (toRaw r)).1 ∧
+    abiAlignG (gcTarget p) ba (toRaw r) = (llSA (gcTarget p) (toRaw r)).2
+  | .basic b, _ => by
+    simp only [toRaw, abiSize, abiAlignG, llSA]
+    exact ⟨abi_basic_size p hp b, abiOKG_spec hba b⟩
+  | .pointer _, _ => by
+    have f := gc_ptr_facts p hp
+    simp only [toRaw, abiSize, abiAlignG, llSA]; exact ⟨f.1, f.2.1⟩
+  | .map _ _, _ => by
+    have f := gc_ptr_facts p hp
+    simp only [toRaw, abiSize, abiAlignG, llSA]; exact ⟨f.1, f.2.1⟩
+  | .chan _, _ => by
+    have f := gc_ptr_facts p hp
+    simp only [toRaw, abiSize, abiAlignG, llSA]; exact ⟨f.1, f.2.1⟩
+  | .slice _, _ => by
+    have f := gc_ptr_facts p hp
+    simp only [toRaw, abiSize, abiAlignG, llSA]; exact ⟨f.2.2.1, f.2.2.2.1⟩
+  | .iface _, _ => by
+    have f := gc_ptr_facts p hp
+    simp only [toRaw, abiSize, abiAlignG, llSA]; exact ⟨f.2.2.2.2.1, f.2.2.2.2.2.1⟩
+  | .func, _ => by
+    have f := gc_ptr_facts p hp
+    simp only [toRaw, abiSize, abiAlignG, llSA]; exact ⟨f.2.2.2.2.2.2.1, f.2.2.2.2.2.2.2⟩
+  | .closure, _ => by
+    have f := gc_ptr_facts p hp
+    simp only [toRaw, abiSize, abiAlignG, llSA]; exact ⟨f.2.2.2.2.2.2.1, f.2.2.2.2.2.2.2⟩
   | .named t, h => by
-    have ih := abi_inv t (by simpa [padFree, toRaw] using h)
-    simpa [toRaw, abiSize, abiAlign, llSA] using ih
+    have ih := abi_inv p hp ba hba t (by simpa [padFree, toRaw] using h)
+    simpa [toRaw, abiSize, abiAlignG, llSA] using ih
   | .array n e, h => by
-    have ih := abi_inv e (by simpa [padFree, toRaw] using h)
-    simp only [toRaw, abiSize, abiAlign, llSA, ih.1, ih.2, and_self]
+    have ih := abi_inv p hp ba hba e (by simpa [padFree, toRaw] using h)
+    simp only [toRaw, abiSize, abiAlignG, llSA, ih.1, ih.2, and_self]
   | .struct fs, h => by
-    have h' : padFrees (gcTarget 8) (toRaws fs) = true ∧ tailOK (stdSAs (gcTarget 8) (toRaws fs)) = true := by
+    have h' : padFrees (gcTarget p) (toRaws fs) = true ∧ tailOK (stdSAs (gcTarget p) (toRaws fs)) = true := by
       simpa [padFree, toRaw] using h
     constructor
-    · have := goSizeof_eq 8 (Or.inr rfl) (toRaw (.struct fs)) h
+    · have := goSizeof_eq p hp (toRaw (.struct fs)) h
       rw [toRaw_idem] at this
       simpa [toRaw, abiSize] using this
-    · have := abi_invF fs h'.1
-      simpa [toRaw, abiAlign, llSA, llStruct] using this
-theorem abi_invF : ∀ fs, padFrees (gcTarget 8) (toRaws fs) = true →
-    abiAligns (gcTarget 8) (toRaws fs) = maxAlignOf (llSAs (gcTarget 8) (toRaws fs))
-  | .nil, _ => by simp [toRaws, abiAligns, llSAs, maxAlignOf]
+    · have := abi_invF p hp ba hba fs h'.1
+      simpa [toRaw, abiAlignG, llSA, llStruct] using this
+theorem abi_invF (p : Nat) (hp : p = 4 ∨ p = 8) (ba : Basic → Nat) (hba : abiOKG (gcTarget p) ba = true) :
+    ∀ fs, padFrees (gcTarget p) (toRaws fs) = true →
+    abiAlignsG (gcTarget p) ba (toRaws fs) = maxAlignOf (llSAs (gcTarget p) (toRaws fs))
+  | .nil, _ => by simp [toRaws, abiAlignsG, llSAs, maxAlignOf]
   | .cons t fs, h => by
-    have h' : padFree (gcTarget 8) (toRaw t) = true ∧ padFrees (gcTarget 8) (toRaws fs) = true := by
+    have h' : padFree (gcTarget p) (toRaw t) = true ∧ padFrees (gcTarget p) (toRaws fs) = true := by
       simpa [padFrees, toRaws] using h
-    have it := abi_inv t h'.1
-    have ifs := abi_invF fs h'.2
-    simp only [toRaws, abiAligns, llSAs, maxAlignOf, it.2, ifs]
+    have it := abi_inv p hp ba hba t h'.1
+    have ifs := abi_invF p hp ba hba fs h'.2
+    simp only [toRaws, abiAlignsG, llSAs, maxAlignOf, it.2, ifs]
 end
 
-theorem abi_eq_ll (t : GoType) (h : padFree (gcTarget 8) (toRaw t) = true) :
-    abiTable (gcTarget 8) t = llvmLayout (gcTarget 8) t := by
-  unfold abiTable llvmLayout
-  rw [(abi_inv t h).1, (abi_inv t h).2]
-
-
+/-- (c) = (b) for any descriptor alignment table that agrees with the data layout on the basic kinds -/
+theorem abi_eq_ll (p : Nat) (hp : p = 4 ∨ p = 8) (ba : Basic → Nat) (hba : abiOKG (gcTarget p) ba = true)
+    (t : GoType) (h : padFree (gcTarget p) (toRaw t) = true) :
+    (⟨abiSize (gcTarget p) (toRaw t), abiAlignG (gcTarget p) ba (toRaw t), abiOffsets (gcTarget p) t⟩ : Layout)
+      = llvmLayout (gcTarget p) t := by
+  unfold llvmLayout abiOffsets
+  rw [(abi_inv p hp ba hba t h).1, (abi_inv p hp ba hba t h).2]
 
 /-- on a well-formed target a struct whose own zero-size tail is padded by gc is larger at compile time than in LLVM -/
 theorem zero_tail_key (fs : Fields) (p : Nat) (hp : p = 4 ∨ p = 8) (hf : padFrees (gcTarget p) fs = true)
